@@ -1662,3 +1662,83 @@ Proof.
       intros s Hs. destruct (Henvm m Hin) as [_ Hsig]. destruct (Hsig s Hs) as [[Hd Hl] _]. split; [exact Hd|].
       intros Hk. rewrite Hk in Hl. exact Hl.
 Qed.
+
+(* ------------------------------------------------------------------------------------------
+   the hypothesis is satisfiable: a message with a plain signal, a 4-group multiplexer whose groups
+   overlay each other (one child in group 0, two in group 1), and a plain signal behind it; a second
+   message without multiplexer holding an enum signal
+   ------------------------------------------------------------------------------------------ *)
+Local Open Scope string_scope.
+Definition std_sig (id : Z) (name : string) (rel size : Z) (parent : option Z) (groups : list Z) (desc : string) : signal :=
+  mksignal id name KStandard rel parent groups size false fl_one fl_zero fl_zero (mkfl 255 0) "" 0 0 0 desc fl_zero 0 [].
+Definition example_mux_bus : bus :=
+  mkbus "bus" "mux" []
+    [mknode "ECU 1" 3 "" []; mknode "GW" 7 "" []]
+    [ mkenum "on off" [(1, "on"); (0, "off")] 1 0 ]
+    [ mkmessage 256 "status" 4 LittleEndian 0 0 0 0 "ECU 1" ["GW"] "" []
+        [ std_sig 0 "a" 0 8 None [] "first";
+          mksignal 1 "mode sel" KMux 8 None [] 0 false fl_one fl_zero fl_zero fl_zero "" 0 4 16 "the switch" fl_zero 0 [];
+          std_sig 2 "c0" 0 8 (Some 1) [0] "";
+          std_sig 3 "c1" 0 4 (Some 1) [1] "";
+          std_sig 4 "c 2" 4 12 (Some 1) [1] "";
+          std_sig 5 "z" 26 6 None [] "" ];
+      mkmessage 512 "other" 1 BigEndian 0 0 0 0 "GW" [] "second" []
+        [ mksignal 0 "n" KEnum 0 None [] 0 false fl_one fl_zero fl_zero fl_zero "" 0 0 0 "" fl_zero 0 [] ] ].
+
+Ltac in_cases H := cbn [In] in H; repeat (destruct H as [<-|H]); try contradiction.
+
+Example example_mux_bus_ok : mbus example_mux_bus.
+Proof.
+  unfold mbus, example_mux_bus. cbn [b_desc b_attrs b_nodes b_messages b_enums map n_name n_desc n_attrs length].
+  split; [reflexivity|]. split; [repeat constructor|]. split; [e_nodup|]. split; [vm_compute; intuition discriminate|].
+  split; [cbn; lia|]. split.
+  { constructor; [|constructor; [|constructor]]; unfold mmessage;
+      cbn [m_desc m_attrs m_cycle m_delay m_startdelay m_sendtype m_canid m_size m_signals m_sender m_receivers].
+    - refine (conj eq_refl (conj eq_refl (conj eq_refl (conj eq_refl (conj eq_refl (conj _ (conj _ (conj _ (conj _ (conj _ (conj _ (conj _ _)))))))))))).
+      + cbn; lia.
+      + lia.
+      + unfold msigs_ok. split; [e_nodup|]. split; [e_nodup|]. split.
+        { cbn [filter is_topb std_sig s_parent]. repeat (apply Forall_cons; [unfold top_ok, std_sig; cbn; repeat split; try reflexivity; try lia|]). apply Forall_nil. }
+        split.
+        { intros a b Ha Hb Hma Hmb. in_cases Ha; in_cases Hb; try reflexivity; try (cbn in Hma; discriminate Hma); try (cbn in Hmb; discriminate Hmb). }
+        split.
+        { intros c Hc Ht. in_cases Hc; try (cbn in Ht; discriminate Ht);
+            (eexists; split; [right; left; reflexivity|]; split; [reflexivity|]; split; [reflexivity|];
+             unfold child_ok, std_sig; cbn; repeat split; try reflexivity; try lia; eexists; split; [reflexivity|lia]). }
+        split.
+        { intros c c' Hc Hc' Ht Ht' Hne Hg. in_cases Hc; in_cases Hc'; try (cbn in Ht; discriminate Ht); try (cbn in Ht'; discriminate Ht');
+            try contradiction; try (cbn in Hg; discriminate Hg); cbn; lia. }
+        { intros mx t Hmx Hmxm Ht Htm. in_cases Ht; try reflexivity; cbn in Htm; discriminate Htm. }
+      + cbn [filter is_topb std_sig s_parent]. cbn. repeat split; lia.
+      + cbn; auto.
+      + intros x Hx; cbn in Hx; cbn; intuition.
+      + e_nodup.
+      + intros Hx; discriminate Hx.
+    - refine (conj eq_refl (conj eq_refl (conj eq_refl (conj eq_refl (conj eq_refl (conj _ (conj _ (conj _ (conj _ (conj _ (conj _ (conj _ _)))))))))))).
+      + cbn; lia.
+      + lia.
+      + unfold msigs_ok. split; [e_nodup|]. split; [e_nodup|]. split.
+        { cbn. repeat (apply Forall_cons; [unfold top_ok; cbn; repeat split; try reflexivity; try lia|]). apply Forall_nil. }
+        split; [intros a b Ha Hb Hma Hmb; in_cases Ha; cbn in Hma; discriminate Hma|].
+        split; [intros c Hc Ht; in_cases Hc; cbn in Ht; discriminate Ht|].
+        split; [intros c c' Hc Hc' Ht; in_cases Hc; cbn in Ht; discriminate Ht|].
+        intros mx t Hmx Hmxm; in_cases Hmx; cbn in Hmxm; discriminate Hmxm.
+      + cbn. repeat split; try lia.
+      + cbn; auto.
+      + intros x Hx; cbn in Hx; contradiction.
+      + constructor.
+      + intros Hx; discriminate Hx. }
+  split; [e_nodup|]. split; [e_nodup|]. split; [reflexivity|].
+  repeat (apply Forall_cons;
+    [unfold enum_wf; cbn [en_values en_maxindex en_minsize];
+     split; [e_nodup|]; split; [e_nodup|];
+     split; [intros v Hv; cbn in Hv; intuition (subst; cbn; lia)|]; split; cbn; lia|]).
+  apply Forall_nil.
+Qed.
+
+Example example_mux_bus_roundtrip :
+  exists b', export_import example_mux_bus = Ok b' /\ proj_bus b' = proj_bus example_mux_bus /\
+             map (fun m => map (fun s => (s_name s, s_rel s, s_parent s, s_groups s)) (m_signals m)) (b_messages b')
+             = [[("a", 0, None, []); ("z", 26, None, []); ("mode_sel", 8, None, []);
+                 ("c0", 0, Some 1, [0]); ("c1", 0, Some 1, [1]); ("c_2", 4, Some 1, [1])]; [("n", 0, None, [])]].
+Proof. eexists. split; [vm_compute; reflexivity|]. split; vm_compute; reflexivity. Qed.
